@@ -3,6 +3,8 @@ CONSTANTS
   MinN = 0
   MaxN = 5
   TwinMaxN = 4
+  SubMaxN = 3
+  OutputCopy = "same"
   GuiseMaxN = 3
   GuiseTest = "callable"
   ArgSwap = "none"
